@@ -95,9 +95,24 @@ class SyncPool:
     def __exit__(self, *a):
         return False
 
+    ncpus = nodes = 1
+
+    def map(self, f, xs):
+        return [f(x) for x in xs]
+
+    def imap(self, f, xs):
+        return iter(self.map(f, xs))
+
+    uimap = imap
+
     def amap(self, f, xs):
-        res = [f(x) for x in xs]
+        res = self.map(f, xs)
         return types.SimpleNamespace(ready=lambda: True, get=lambda: res)
+
+    def close(self):
+        pass
+
+    join = clear = close
 
 
 class PBar:
